@@ -9,6 +9,7 @@ pub const MAX_BUCKETS: usize = INFO_HASH_LEN * 8;
 
 /// Routing table containing a table of routing nodes as well
 /// as the id of the local node participating in the dht.
+#[cfg_attr(feature = "verif", derive(Clone))]
 pub struct RoutingTable {
     // Important: Our node id will always fall within the range
     // of the last bucket in the buckets array.
